@@ -27,6 +27,10 @@ def run(ctx, db, tier):
     summ = publish.Summaries(db)
     publish.check_no_touch(ctx, db, 'C18.publish-discipline', summ, functions=None, per_instance=False, floor=12)
     virtual_delete(ctx, db)
+    # a completion registered through make_promise lives in the promise handle: overwriting or destroying the handle must fire it (with the
+    # broken-promise state) and release the helper; re-arming a converter assigns into its parked promise member the same way
+    from . import C01
+    C01.dtor_and_assign(ctx, db, 'C18.abandoned-completion-fires')
 
 
 def _conv_lambdas(db):
@@ -67,10 +71,13 @@ def conv_siblings(ctx, db):
         for lf in db.instances(k):
             evl = list(lf.events())
             has_catch = any((b.get('label') or {}).get('kind') == 'catch' and (b['label'].get('type') == '...') for g in [lf] + helper_bodies(db, lf) for b in g['blocks'])
-            pdecl = next((e for e in evl if e.k == 'decl' and 'promise<' in (e.get('type') or '') and ('_prom' in (e.get('init') or '') or 'take_promise' in (e.get('init') or '') or re.search(r'call\(cocls::future_conv_promise_base::\w+\)', e.get('init') or ''))), None)
+            pref = next((e for e in evl if e.k == 'decl' and e.get('ref') and 'promise<' in (e.get('type') or '') and '_prom' in (e.get('init') or '')), None)
+            pdecl = next((e for e in evl if e.k == 'decl' and not e.get('ref') and not e.get('ptr') and 'promise<' in (e.get('type') or '') and ('_prom' in (e.get('init') or '') or 'take_promise' in (e.get('init') or '') or re.search(r'call\(cocls::future_conv_promise_base::\w+\)', e.get('init') or ''))), None)
             bad = None
             if not has_catch:
                 bad = 'no catch(...) handler: an exception thrown by the source or the converter escapes a noexcept resume function (terminate) and the outer future is never resolved'
+            elif pdecl is None and pref is not None:
+                bad = 'the resume function works on the parked member promise through a reference (%s) instead of a moved-out local: a promise the handler leaves untouched is never dropped and the outer future stays pending' % pref.get('var')
             elif pdecl is None:
                 bad = 'the parked promise is not moved into a local first'
             elif pdecl.get('try') is not None:
